@@ -198,7 +198,8 @@ def generate():
         out.append('(* dictionaries of default_component_structure() (option sections) and its leaf options *)')
         out.append('Definition option_sections : list (list pk) :=\n  %s.\n' % clist(sections, lambda p: clist(p, cpk)))
         out.append('Definition option_leaves : list (list pk) :=\n  %s.\n' % clist(leaves, lambda p: clist(p, cpk)))
-        txt = '\n'.join(out)
+        # (the repr of a function inside an Optional(...) label holds a memory address: not part of any compared label)
+        txt = re.sub(r' at 0x[0-9a-f]+', '', '\n'.join(out))
     except Exception as e:  # unknown callable, import failure...
         GEN_ERROR = '%s: %s' % (type(e).__name__, e)
         return
